@@ -95,7 +95,10 @@ var (
 	latFac   = []string{"0.5", "0.666666666666666667", "1", "0"}
 	latPer   = []int64{1, 3, 156}
 	latStart = []int64{0, 1, 5}
-	latProv  = []string{"1", "3", "1000001", "821917808219.178082191780821917"}
+	// the last value drains the developer vesting account (225e12, pre-minted, never refilled) within a few epochs: the
+	// epochs in which its balance is below the whole provision but still covers the developer share must mint; the
+	// epochs after that are refused by the module (documented), atomically
+	latProv  = []string{"1", "3", "1000001", "821917808219.178082191780821917", "150000000000000.5"}
 	latRecv  = [][]Recv{
 		nil,
 		{{"dev1", "1"}},
@@ -120,12 +123,12 @@ func (p Point) Config() Config {
 // point is simplified towards the front of these lists. (Identity except for the reduction factor,
 // where 1 = "provision never changes" is the simplest.)
 var simpler = [nDims][]int{
-	dPer: {0, 1, 2}, dStart: {0, 1, 2}, dFac: {2, 0, 1, 3}, dRec: {0, 1, 2}, dProv: {0, 1, 2, 3}, dProp: {0, 1, 2, 3, 4, 5}, dRecv: {0, 1, 2, 3},
+	dPer: {0, 1, 2}, dStart: {0, 1, 2}, dFac: {2, 0, 1, 3}, dRec: {0, 1, 2}, dProv: {0, 1, 2, 3, 4}, dProp: {0, 1, 2, 3, 4, 5}, dRecv: {0, 1, 2, 3},
 }
 
 // enumeration order, outermost first: the two dimensions that decide the cost of a point (receivers:
 // failing points are run again and simplified; period: number of epochs) are outermost and the product
-// of the others (864) is a multiple of the shard count, so round-robin dealing balances the shards.
+// of the others (1080) is near a multiple of the shard count, so round-robin dealing balances the shards.
 var enumOrder = [nDims]int{dRecv, dPer, dStart, dFac, dRec, dProv, dProp}
 
 // fullLattice is the complete product, in a fixed order.
